@@ -457,7 +457,12 @@ def run(ctx):
                 ctx.ob("R3.loop", "children-loop|%s:%s" % (FRD, fn.name), P.where(lp),
                        "the loop over the untrusted num_children also stops when the element list is exhausted",
                        "&&" in c and "num_elements" in c, c)
-    ctx.floor("C04 num_children loops", nl, 2)
+    ctx.count("num_children_loops", nl)
+    # whatever the loops look like: the schema walk, executed abstractly on a group whose child count exceeds
+    # the remaining elements, stops at the end of the element list (shared with C17.1)
+    from . import C17
+    tr_ = P.fn("traverse_schema_recursive", FRD)
+    C17._walk_table(ctx, tr_, P.enum("carquet_field_repetition"))
     # footer validation (shared with C18.2) is decided there; here: footer_size bounds the malloc/fread
     rf = P.fn("read_footer", FRD)
     g = _guards(rf, lambda c: "footer_size" in src(c) and "file_size" in src(c))
